@@ -20,6 +20,21 @@ CHECKS = {
         design="6/C12", technique="Coq proof over list model (sorting/grouping lemmas, ring) + vm_compute correspondence"),
 }
 
+CHECKS["C01"] = dict(
+    text=("Theorems for ALL meshes / all pairs of vertex functions about the Gallina model of Solver._fem_tria/_fem_tetra/_fem_tria_aniso: "
+          "entrywise symmetry and constants->0 (any geometry); on non-degenerate meshes (the code's own guard inactive) f.A.g = sum of "
+          "measure * grad f . grad g with the spec gradient characterised independently, hence PSD; all denominators non-zero; aniso: "
+          "symmetric, constant-annihilating, PSD for weights >= 0, weights from aniso >= 0 lie in (0,1], element blocks equal the isotropic "
+          "ones for weights (1,1) and never exceed them for weights in [0,1] given an orthonormal in-plane frame. Order/orientation "
+          "invariance and float32 agreement are covered by correspondence + oracle only (partial)."),
+    design="6/C01", technique="Coq proof (ring/field identities + list-induction assembly lemmas) + vm_compute correspondence at binary64")
+CHECKS["C02"] = dict(
+    text=("Theorems for all meshes: mass matrices (tria/tet, full/lumped) symmetric, stored entries > 0 on non-degenerate meshes, entries "
+          "sum to total measure, x.B.y equals the closed form of the exact integral which equals the edge-midpoint quadrature (exact for "
+          "quadratics) for triangles, lumped = diagonal of row sums. Equality of Solver.fem_tria_mass with Solver.mass is decided by "
+          "correspondence + oracle (both are modelled)."),
+    design="6/C02", technique="Coq proof (ring/field + assembly lemmas) + vm_compute correspondence at binary64")
+
 NOT_YET = {}
 
 
